@@ -170,3 +170,60 @@ def units_unit(fmt):
 
 P.unit(f"{GEO}.yield_from_xyz", name="units[xyz]: physical distances unchanged for every DistanceUnit")(units_unit("xyz"))
 P.unit(f"{M.CLS['Structure']}.yield_from_mol2", name="units[mol2]: physical distances unchanged for every DistanceUnit")(units_unit("mol2"))
+
+
+def ens_units_unit(fmt):
+    """the ensemble loaders take the same `source_units` (and `name`) and must honour them on the text and on the stream route"""
+    def body(V):
+        I, st = V.I, V.st
+        T.use(st)
+        unit = V.choose(["Bohr", "pm"], "unit")
+        entry = V.choose(["loads", "load"], "entry")
+        E = V.cls("molli.chem.atom:Element")
+        e = M.mk_ens(V, 2, 2, bonds=((0, 1),) if fmt == "mol2" else ())
+        for a, el in zip(e.fields["_atoms"].items, ("N", "F")):
+            a.fields["element"] = I.getattr_(E, el)
+            if fmt == "mol2":
+                V.assume(z3.Length(a.fields["label"].z) > 0)
+        name = V.sym("new_name", "str")
+        V.assume(z3.Length(name.z) > 0)
+        V.witness(lambda ev: {"op": "ensemble-units", "format": fmt, "unit": unit, "entry": entry, "signature": f"ensemble-units/{fmt}"})
+        V.cover()
+        w = V.method(e, f"dumps_{fmt}", [])
+        V.ensure("writer/returns-text", z3.BoolVal(w.returned))
+        if not w.returned:
+            return
+        cls = V.cls(ENSQ)
+        I.target = f"{ENSQ}.{entry}_{fmt}"
+        try:
+            arg = w.value if entry == "loads" else I.call(I.ext_models["io.StringIO"], [w.value], {})
+            r = I.call(I.getattr_(cls, f"{entry}_{fmt}"), [arg], {"source_units": unit, "name": name})
+        except PyExc:
+            V.ensure("ensemble-reader/accepts-the-unit", z3.BoolVal(False))
+            return
+        V.ensure("ensemble-reader/accepts-the-unit", z3.BoolVal(True))
+        cr, cs = r.fields["_coords"], e.fields["_coords"]
+        ok = tuple(cr.tail) == (2, 2, 3)
+        V.ensure("ensemble-reader/frame-and-atom-count", z3.BoolVal(ok))
+        if not ok:
+            return
+        R6 = T.rounding(6)
+        f = ANGSTROM_PER[unit]
+        tol = 1e-5
+        fs = []
+        for c in range(2):
+            for i in range(2):
+                for k in range(3):
+                    x = R6(to_z3(cs.data[c][i][k], "real"))
+                    got = to_z3(cr.data[c][i][k], "real")
+                    lo, hi = z3.RealVal(repr(f * (1 - tol))), z3.RealVal(repr(f * (1 + tol)))
+                    fs.append(z3.Or(z3.And(x >= 0, got >= lo * x, got <= hi * x), z3.And(x <= 0, got <= lo * x, got >= hi * x)))
+        V.ensure("ensemble-units/coordinates-are-the-file's-numbers-times-Angstrom-per-unit", z3.And(*fs))
+        V.ensure("ensemble-reader/name-override-honoured", I.eq(r.fields.get("_name"), name))
+    return body
+
+
+P.unit(f"{ENSQ}.loads_xyz", name="units[ensemble xyz]: loads_/load_ honour source_units and name",
+       functions=[f"{ENSQ}.loads_xyz", f"{ENSQ}.load_xyz"])(ens_units_unit("xyz"))
+P.unit(f"{ENSQ}.loads_mol2", name="units[ensemble mol2]: loads_/load_ honour source_units and name",
+       functions=[f"{ENSQ}.loads_mol2", f"{ENSQ}.load_mol2"])(ens_units_unit("mol2"))
